@@ -1573,8 +1573,11 @@ func (b *builder) switchStmt(fn *Function, s *ast.SwitchStmt, label *lblock) {
 		b.stmt(fn, s.Init)
 	}
 
-	entry := fn.currentBlock
 	tag := b.expr(fn, s.Tag)
+	// The tag expression may contain control flow (&&, ||, a call that
+	// cannot return): the switch starts in the block where its
+	// evaluation ended, as in typeSwitchStmt.
+	entry := fn.currentBlock
 
 	heads := make([]*BasicBlock, 0, len(s.Body.List))
 	bodies := make([]*BasicBlock, len(s.Body.List))
